@@ -449,3 +449,6 @@ CLAIMS["C18"]["text"] += (" TestTransportListenHistory also obtains the running 
 CLAIMS["C18"]["note"] += (" Only the transport-level AddCertHashes is exercised; the swarm and basic-host callers above it are not run.")
 
 CLAIMS["C04"]["text"] += (" A QUIC listener layer (TestQUICListenerLayer) runs the real QUIC transport over simnet in virtual time: a listener whose gater rejects every k-th InterceptAccept / InterceptSecured call after the QUIC handshake and whose resource manager refuses the k-th OpenConnection / SetPeer, a consumer that accepts some connections and closes them at once or late, 1-4 dialling transports that connect, open a stream or not and hang up or stay; after listener, connections and transports are closed both sides' real managers must read zero everywhere.")
+
+CLAIMS["C11"]["text"] += (" The connection-manager view of every peer (Tags map and total Value, with generated pre-existing tags of other subsystems as the 'previous values') is snapshotted before its first request and must be restored exactly whenever the model says the peer holds neither a reservation nor a circuit: after disconnect, expiry plus collection, any number of granted refreshes and repeated circuits, and after the relay is Closed at the end of every history.")
+CLAIMS["C11"]["note"] += (" Assumes the BasicConnMgr forgets a peer (foreign tags included) when its last connection closes; tag values are not judged while a peer still holds a reservation or circuit.")
